@@ -256,7 +256,8 @@ CHECKS = {
         "runs": lambda tier: (lambda n: [
             {"args": ["repo", "-impl", "mem", "-scribble", "-n", str(n), "-len", "40"]},
             {"args": ["repo", "-impl", "mem", "-profile", "snapshot", "-scribble", "-n", str(n), "-len", "40"], "seed_off": 1},
-            {"args": ["repo", "-impl", "ent", "-scribble", "-workers", "1", "-n", str(max(n // 3, 60)), "-len", "30"], "seed_off": 2},
+            {"args": ["repo", "-impl", "ent", "-scribble", "-workers", "1", "-avoid", "like-case,json-path-key",
+                      "-n", str(max(n // 3, 60)), "-len", "30"], "seed_off": 2},
             {"args": ["cron", "-scribble", "-n", str(n), "-len", "30"], "seed_off": 3},
         ])({"quick": 300, "thorough": 6000, "widen": 1500}[tier]),
         "rule": "the C01 / C14 / C15 histories re-run in scribbling mode: after every call the harness overwrites every "
